@@ -387,7 +387,7 @@ proof fn lemma_colno_mono(cells: Seq<RenderTableCell>, a: int, b: int)
 { if a < b { lemma_colno_mono(cells, a, b - 1); } }
 impl RenderTableRow {
 //@item src/lib.rs :: impl RenderTableRow :: fn into_cells
-//@auto C01 C06
+//@auto C01 C03 C06
 //@sub /-> Vec<RenderNode>/ ==> -> (result: Vec<RenderNode>)
 //@sub /let mut result = Vec::new\(\);/ ==> let mut result: Vec<RenderNode> = Vec::new();
 //@sub /for mut cell in self\.cells/ ==> let cells = self.cells;\n        for cell0 in it: cells
@@ -421,7 +421,7 @@ impl RenderTableRow {
                 colno_upto(cells@, cells@.len() as int) <= col_sizes@.len(), //@w
                 ssum(col_sizes@) + col_sizes@.len() <= 0x2000_0000_0000_0000, //@w
                 colno == colno_upto(cells@, it.index@), //@w
-                result@.len() == kept_upto(cells@, col_sizes@, vertical, it.index@).len(), //@w
+                result@.len() == kept_upto(cells@, col_sizes@, vertical, it.index@).len(), //@w @C03 @C06 #cells_kept_in_order_so_far
                 forall|t: int| 0 <= t < result@.len() ==> { //@w
                     let j = kept_upto(cells@, col_sizes@, vertical, it.index@)[t]; //@w
                     &&& 0 <= j < it.index@ //@w
